@@ -501,6 +501,11 @@ func (d *drv) doBatch() {
 		b.Put([]byte("\xAA\xAA"), bytes.Repeat([]byte{0xAA}, len(dump)))
 		b.Reset()
 	}
+	if big && err == nil && (d.mode == "c01" || d.mode == "c03" || d.mode == "c16") && d.rng.Intn(3) == 0 {
+		// an oversize batch is made durable by its tables and one manifest edit, not by the journal:
+		// reopening right after it (no later journal record to repair anything) reads exactly that edit back
+		d.doReopen(false)
+	}
 }
 
 // ---- reads ----
